@@ -183,8 +183,10 @@ class ListeningConnection(Connection):
             incoming=True
         )
         connection._reader, connection._writer = reader, writer
-        await self.network.on_peer_accepted(connection)
+        # The connection is connected once accepted; the initialization handler
+        # may close it again (nothing may be reported after CLOSED)
         await connection.set_state(ConnectionState.CONNECTED)
+        await self.network.on_peer_accepted(connection)
 
 
 class DataConnection(Connection, abc.ABC):
